@@ -293,14 +293,18 @@ def identity_cases():
         for variant in ("plain", "after-dispatch", "after-subscription", "two-signals"):
             EvA_, EvB_, Src_, _ = _classes()
             s = Src_()
-            s.a
-            if variant == "two-signals":
-                s.b
-            if variant == "after-dispatch":
-                s.a.dispatch(EvA_(1))
-            if variant == "after-subscription":
-                async with se([s.a, s.b]):
+            try:
+                s.a
+                if variant == "two-signals":
+                    s.b
+                if variant == "after-dispatch":
                     s.a.dispatch(EvA_(1))
+                if variant == "after-subscription":
+                    async with se([s.a, s.b]):
+                        s.a.dispatch(EvA_(1))
+            except Exception:  # noqa: BLE001  (rows are verdicts: a failing use is a failed row)
+                weak.append({"variant": variant, "dead": False})
+                continue
             r = weakref.ref(s)
             del s
             gc.collect()
@@ -315,14 +319,18 @@ def identity_cases():
         from asphalt.core import stream_events as se
         EvA_, EvB_, Src_, Sub_ = _classes()
         for label, inst in (("own", Src_()), ("inherited", Sub_())):
-            first = inst.a
-            async with se([inst.a, inst.b]):
-                during = inst.a
-            after = inst.a
-            async with inst.a.stream_events():
-                pass
-            again = inst.a
-            cyc.append({"variant": label, "dead": first is during and during is after and after is again})
+            try:
+                first = inst.a
+                async with se([inst.a, inst.b]):
+                    during = inst.a
+                after = inst.a
+                async with inst.a.stream_events():
+                    pass
+                again = inst.a
+                good = first is during and during is after and after is again
+            except Exception:  # noqa: BLE001
+                good = False
+            cyc.append({"variant": label, "dead": good})
     vclock.run(cmain, backend="asyncio", seed=0)
     cases.append({"id": "cycle", "kind": "weak", "rows": cyc})
 
@@ -403,20 +411,23 @@ def identity_cases():
             extra = Signal(EvA_)
 
         for label, make_ctx in (("Context", Context), ("subclass", Ctx2)):
-            ctx = make_ctx()
-            before = ctx.resource_added
-            extra_before = getattr(ctx, "extra", None)
-            async with ctx:
-                during = ctx.resource_added
-            after = ctx.resource_added
-            good = before is during and during is after and getattr(ctx, "extra", None) is extra_before
-            got = []
-            if extra_before is not None:
-                async with extra_before.stream_events() as st:
-                    ctx.extra.dispatch(EvA_(7))
-                    with anyio.move_on_after(1):
-                        got.append((await st.__anext__()).n)
-                good = good and got == [7]
+            try:
+                ctx = make_ctx()
+                before = ctx.resource_added
+                extra_before = getattr(ctx, "extra", None)
+                async with ctx:
+                    during = ctx.resource_added
+                after = ctx.resource_added
+                good = before is during and during is after and getattr(ctx, "extra", None) is extra_before
+                got = []
+                if extra_before is not None:
+                    async with extra_before.stream_events() as st:
+                        ctx.extra.dispatch(EvA_(7))
+                        with anyio.move_on_after(1):
+                            got.append((await st.__anext__()).n)
+                    good = good and got == [7]
+            except Exception:  # noqa: BLE001  (a verdict, not a crash: a signal that rejects its own event class is not the same signal)
+                good = False
             ctxrows.append({"variant": label, "dead": good})
     vclock.run(ctxmain, backend="asyncio", seed=0)
     cases.append({"id": "context", "kind": "weak", "rows": ctxrows})
@@ -436,14 +447,17 @@ def delivery_cases():
             src.a, src.b                      # the bound signals exist before the copy is made
             cp = copy.copy(src)
             got = {"src": [], "cp": []}
-            async with src.a.stream_events() as s1, cp.a.stream_events() as s2:
-                cp.a.dispatch(EvA(1))
-                src.a.dispatch(EvA(2))
-                for name, st, owner in (("src", s1, src), ("cp", s2, cp)):
-                    with anyio.move_on_after(0.5):
-                        while True:
-                            ev = await st.__anext__()
-                            got[name].append((ev.n, ev.source is owner))
+            try:
+                async with src.a.stream_events() as s1, cp.a.stream_events() as s2:
+                    cp.a.dispatch(EvA(1))
+                    src.a.dispatch(EvA(2))
+                    for name, st, owner in (("src", s1, src), ("cp", s2, cp)):
+                        with anyio.move_on_after(0.5):
+                            while True:
+                                ev = await st.__anext__()
+                                got[name].append((ev.n, ev.source is owner))
+            except Exception as e:  # noqa: BLE001
+                got["error"] = type(e).__name__
             rows.append({"variant": label, "dead": got == {"src": [(2, True)], "cp": [(1, True)]}})
     vclock.run(main, backend="asyncio", seed=0)
     return [{"id": "copy-delivery", "kind": "weak", "rows": rows}]
